@@ -22,6 +22,7 @@ mod hasher;
 mod caches;
 mod extrange;
 mod overflow;
+mod stageglue;
 mod stress;
 mod triepos;
 mod locksdemo;
@@ -78,6 +79,7 @@ fn main() {
         "caches-open0" => caches::run_open0(seed, cases, &mut sink),
         "extrange" => extrange::run(seed, cases, &mut sink),
         "openpath" => openpath::run(seed, cases, &mut sink),
+        "stageglue" => stageglue::run(seed, cases, &mut sink),
         "openpath-findings" => openpath::run_findings(seed, &mut sink),
         "overlay-index" => ovl::run(seed, cases, &mut sink),
         "bitops" => bitops::run(seed, cases, &mut sink),
